@@ -3,21 +3,31 @@
 #define VERIF_FORMATTER_TU
 #define VERIF_HOOK_SNPRINTF
 #include "contracts/logging.h"
+#include <stdlib.h>
 #include "source/log_formatter.c"
 #define VERIF_LOGGING_PASS2
 #include "contracts/logging.h"
 
 /* VERIF_FMT_STRICT: the property statement as it is (a cut line is still newline-terminated and has no NUL) */
 void h_format_line(void) {
-    struct aws_logging_standard_formatting_data *fd;
+    /* harness-owned objects (see FD_OK): every field of the formatting data is arbitrary, the line buffer is one
+     * object of total_length bytes with arbitrary contents */
+    struct aws_logging_standard_formatting_data *fd = malloc(sizeof(*fd));
     va_list args;
+    __CPROVER_assume(fd != NULL && fd->total_length <= FMT_MAX_TOTAL);
+    fd->log_line_buffer = fd->total_length ? malloc(fd->total_length) : NULL;
+    __CPROVER_assume(fd->total_length == 0 || fd->log_line_buffer != NULL);
+    static const char format_object[1], subject_object[1]; /* format and subject are valid strings; their text is not read by the model */
+    fd->format = format_object;
+    fd->subject_name = nondet_bool() ? subject_object : NULL;
     FMT_GHOST_RESET();
     g_fmt_on = true;
     g_w = nondet_size_t();
     for (int i = 0; i < 8; ++i) g_L[i] = nondet_int();
     g_dlen = nondet_size_t();
     g_derr = nondet_bool();
-    g_line = nondet_ptr();
+    g_tid = nondet_u64();
+    g_line = fd->log_line_buffer;
 #ifdef VERIF_FMT_STRICT
     g_strict = true;
 #endif
